@@ -34,6 +34,11 @@ CHECKS.update({
 CHECKS.update({
  "C02": ("7/C02", "metamorphic generation from upstream nixfmt-validated fixtures (layout-preserving transformations) + package-idiom printer; byte-equality oracle", "Canonical inputs are derived from the texts the repository's tests assert to be nixfmt-stable by transformations RFC 0166 treats as layout-neutral (whole-line item duplication/removal/swap, renames, literal changes, own-line comments, single blank lines), growing to 80+ bindings and deeper nesting; each must be rebuilt byte for byte and accepted by `nima test`.", TB + " nixfmt is not available offline: canonical-ness is inherited from upstream's validated fixtures."),
 })
+RT = " Gap/trivia pairs that fail on the unchanged tree are excluded by construction through known findings (known_findings.json, quarantine/<ID>.json): the search runs where the property holds today."
+CHECKS.update({
+ "C01": ("7/C01", "grammar-based program generation + trivia injection in every inter-token gap; token-sequence equality oracle on an independent tree-sitter reader", "Programs over the full expression grammar with whitespace/comment classes injected into 1..all gaps are round-tripped; the rebuilt text must be valid and carry the same normalised code-token sequence.", TB + RT),
+ "C03": ("7/C03", "grammar-based generation with comment-biased trivia injection; comment multiset/order/wording and barrier-position oracle", "Comments of every kind and placement are injected with unique tags; after the round trip the same comments must appear once, in order, with the same normalised wording and the same number of barrier tokens before them.", TB + RT),
+})
 for pid, mod in [("C01", "round trip: token-sequence equality after rebuild"), ("C03", "round trip: comment multiset/order/barrier-position oracle"), ("C06", "round trip: second-pass fixed point + CLI test"), ("C18", "round trip: lexical spacing normal-form scan")]:
     pass
 
